@@ -658,4 +658,138 @@ Section Protocol.
 
   Lemma reach_SInv : forall st, reach c st -> SInv st.
   Proof. intros st [tr E]. eapply exec_SInv; [|exact E]. unfold SInv, pinit; cbn. apply Inv_init. Qed.
+
+  (* ------------------------------------------------------------------------------------------------------------------ *)
+  (* (3a) transfer: every `stable` invariant of Model/Orch.v holds at every reachable protocol state (even in the middle
+     of a loop iteration), because the protocol changes `o` only by visit / bump / drain / worker_done with a true guard *)
+  Lemma take_msg_infl : forall x s y, take_msg x (RDone s) = Some y -> In s (infl x).
+  Proof.
+    intros x s y T. unfold take_msg in T. unfold infl.
+    assert (R : (if mem s (requeued x) then Some (set_resq x (resq x) (remove1 s (requeued x))) else None) = Some y -> In s (rdones (resq x) ++ requeued x)).
+    { destruct (mem s (requeued x)) eqn:E; [|discriminate]. intros _. apply in_or_app. right. apply mem_In. exact E. }
+    destruct (resq x) as [|h r]; [apply R, T|]. destruct (rmsg_eqb h (RDone s)) eqn:E; [|apply R, T].
+    apply rmsg_eqb_eq in E. subst h. left. reflexivity.
+  Qed.
+
+  Section Transfer.
+    Variable I : ost -> Prop.
+    Hypothesis HI : stable false nofail p I.
+
+    Lemma poll_stable : forall rp sn taken f a f' a' b, Inv a f rp sn -> I a -> poll f a taken = Some (f', a', b) -> I a'.
+    Proof.
+      intros rp sn taken. induction taken as [|[w m] t IH]; intros f a f' a' b H Ia P; cbn in P.
+      - inversion P; subst. exact Ia.
+      - destruct (spawned (phase (f w))); [|discriminate]. destruct (take_msg (f w) m) as [x|] eqn:T; [|discriminate].
+        pose proof (Inv_take a f rp sn w m x H T) as H'. destruct m as [s|].
+        + eapply IH; [exact H' | | exact P].
+          destruct (Inv_infl_fresh a f rp sn H w s (take_msg_infl _ _ _ T)) as (G1 & G2 & G3).
+          rewrite <- (worker_done_add_done a s G1 G2 G3). apply (proj2 (proj2 (proj2 HI))). exact Ia.
+        + destruct t; [|discriminate]. inversion P; subst. exact Ia.
+    Qed.
+
+    Lemma step_stable : forall st l st', SInv st -> I (o st) -> step c st l = Some st' -> I (o st').
+    Proof.
+      intros st l st' H Ia S. unfold SInv in H. destruct l; cbn in S.
+      - des S; inv_some S; exact Ia.
+      - des S; inv_some S; cbn; apply (proj1 HI); auto; eapply nth_error_In'; eauto.
+      - des S; inv_some S; cbn; eapply poll_stable; eauto.
+      - des S; inv_some S; cbn; try exact Ia; apply (proj1 HI); auto; eapply nth_error_In'; eauto.
+      - des S; inv_some S; exact Ia.
+      - des S; inv_some S; exact Ia.
+      - des S; inv_some S; exact Ia.
+      - destruct (pc st); try discriminate S. destruct (nth_error p i) as [s|] eqn:En; [|discriminate S].
+        destruct (negb (is_fin s (o st)) && negb (cur_running s (o st)) && can_run s (o st)); [|discriminate S].
+        assert (Ia' : I (ovisit (o st) s)) by (apply (proj1 HI); auto; eapply nth_error_In'; eauto).
+        destruct ok; [|inv_some S; exact Ia']. unfold submit in S. des S; inv_some S; exact Ia'.
+      - des S; inv_some S; cbn; try apply (proj1 (proj2 (proj2 HI))); apply (proj1 (proj2 HI)); exact Ia.
+      - des S; inv_some S; exact Ia.
+      - des S; inv_some S; exact Ia.
+      - des S; inv_some S; exact Ia.
+      - des S; inv_some S; exact Ia.
+      - des S; inv_some S; exact Ia.
+      - des S; inv_some S; exact Ia.
+      - des S; inv_some S; exact Ia.
+      - des S; inv_some S; exact Ia.
+      - des S; inv_some S; exact Ia.
+      - destruct (phase (ws st w)) eqn:Eph; try discriminate S. destruct (wfail c s); [discriminate S|].
+        assert (Hpe : In s (pend (ws st w))) by (unfold pend; rewrite Eph; left; reflexivity).
+        destruct (Inv_pend_fresh _ _ _ _ H w s Hpe) as (G1 & G2 & G3).
+        destruct (mp c); inv_some S; cbn; [exact Ia|].
+        rewrite <- (worker_done_add_done _ s G1 G2 G3). apply (proj2 (proj2 (proj2 HI))). exact Ia.
+      - destruct (phase (ws st w)) eqn:Eph; try discriminate S. destruct (wfail c s); [|discriminate S].
+        destruct (crashpt_eqb c0 c1); [|discriminate S]. inv_some S. cbn.
+        assert (Hpe : In s (pend (ws st w))) by (unfold pend; rewrite Eph; left; reflexivity).
+        destruct (Inv_pend_fresh _ _ _ _ H w s Hpe) as (G1 & G2 & G3).
+        rewrite <- (worker_done_add_failed _ s G1 G2 G3). apply (proj2 (proj2 (proj2 HI))). exact Ia.
+      - des S; inv_some S; exact Ia.
+      - des S; inv_some S; exact Ia.
+    Qed.
+
+    Lemma reach_stable : I init -> forall st, reach c st -> I (o st).
+    Proof.
+      intros I0 st [tr E].
+      assert (G : forall tr' st0 st1, SInv st0 -> I (o st0) -> exec c st0 tr' = Some st1 -> I (o st1)).
+      { clear I0 E. induction tr' as [|l tr' IH]; intros st0 st1 H0 I0 E; cbn in E; [inversion E; subst; exact I0|].
+        destruct (step c st0 l) as [st2|] eqn:S; [|discriminate].
+        eapply IH; [eapply step_SInv; eauto | eapply step_stable; eauto | exact E]. }
+      apply (G tr pinit st); [unfold SInv, pinit; cbn; apply Inv_init | exact I0 | exact E].
+    Qed.
+  End Transfer.
+
+  (* ------------------------------------------------------------------------------------------------------------------ *)
+  (* (1) one result message per submitted command *)
+  Lemma nodup_count_le1 : forall (l : list nat) x, NoDup l -> count_occ Nat.eq_dec l x <= 1.
+  Proof. intros l x H. apply (proj1 (NoDup_count_occ Nat.eq_dec l) H). Qed.
+
+  Lemma at_most_one_reply_l : forall st, reach c st -> forall s,
+    n_replies st s <= 1 /\ (forall ok, In (s, ok) (replies st) -> exists w, In (w, s) (sent st)).
+  Proof.
+    intros st R s. pose proof (reach_SInv st R) as H. split.
+    - apply nodup_count_le1, (k_rp_nodup _ _ _ _ H).
+    - intros ok X. apply (k_rp _ _ _ _ H s ok X).
+  Qed.
+
+  Lemma submitted_once_l : forall st, reach c st -> NoDup (map snd (sent st)).
+  Proof. intros st R. apply (k_sent_nodup _ _ _ _ (reach_SInv st R)). Qed.
+
+  Lemma phase_trichotomy : forall ph, spawned ph = false \/ alive ph = true \/ dead ph = true.
+  Proof. destruct ph; cbn; auto. Qed.
+
+  Lemma quiescent_alive_idle : forall st w, quiescent c st -> alive (phase (ws st w)) = true -> pend (ws st w) = [].
+  Proof.
+    intros st w Q A. unfold pend. destruct (phase (ws st w)) eqn:Eph; try discriminate A.
+    - (* WIdle *) destruct (cmdq (ws st w)) as [|cm t] eqn:Eq; [reflexivity|]. exfalso.
+      pose proof (Q (WTake w) eq_refl) as X. cbn in X. rewrite Eph, Eq in X. discriminate X.
+    - (* WRun *) exfalso. destruct (wfail c s) as [cp|] eqn:Ef.
+      + pose proof (Q (WFail w cp) eq_refl) as X. cbn in X. rewrite Eph, Ef in X. destruct cp; cbn in X; discriminate X.
+      + pose proof (Q (WDone w) eq_refl) as X. cbn in X. rewrite Eph, Ef in X. destruct (mp c); discriminate X.
+    - (* WDropping *) exfalso.
+      pose proof (Q (WDropAck w (subset (children c w) (fs ++ trk (ws st w))) false) eq_refl) as X. cbn in X. rewrite Eph in X.
+      rewrite eqb_reflx in X. destruct (subset (children c w) (fs ++ trk (ws st w))); cbn in X; discriminate X.
+  Qed.
+
+  (* under the fairness premise (no worker transition enabled at the end): every submitted command was answered exactly
+     once, unless its worker is dead (failed on another command, killed by terminate(), crashed in the drop path, or exited
+     after its last drop) and the command was never answered *)
+  Lemma exactly_one_reply_l : forall st, reach c st -> quiescent c st -> forall w s, In (w, s) (sent st) ->
+    n_replies st s = 1 \/ (n_replies st s = 0 /\ dead (phase (ws st w)) = true).
+  Proof.
+    intros st R Q w s X. pose proof (reach_SInv st R) as H.
+    pose proof (nodup_count_le1 (map fst (replies st)) s (k_rp_nodup _ _ _ _ H)) as Le. unfold n_replies.
+    destruct (in_dec Nat.eq_dec s (map fst (replies st))) as [Y|Y].
+    - left. apply (count_occ_In Nat.eq_dec) in Y. lia.
+    - right. split; [apply (count_occ_not_In Nat.eq_dec); exact Y|].
+      destruct (k_sent _ _ _ _ H w s X) as [Z|[Z|Z]]; [contradiction | | rewrite Z; reflexivity].
+      destruct (phase_trichotomy (phase (ws st w))) as [U|[A|D]]; [| | exact D].
+      + destruct (k_unspawned _ _ _ _ H w U) as [P0 _]. rewrite P0 in Z. destruct Z.
+      + rewrite (quiescent_alive_idle st w Q A) in Z. destruct Z.
+  Qed.
+
+  Lemma exactly_one_reply_alive_l : forall st, reach c st -> quiescent c st -> forall w s, In (w, s) (sent st) ->
+    alive (phase (ws st w)) = true -> n_replies st s = 1.
+  Proof.
+    intros st R Q w s X A. destruct (exactly_one_reply_l st R Q w s X) as [E|[_ D]]; [exact E|].
+    destruct (phase (ws st w)); discriminate.
+  Qed.
+
 End Protocol.
